@@ -25,6 +25,24 @@ RAGGED = [
     ["custom", ["", "", "L ", "M ", "L+", "M+"]],                              # zero-width ancestor segments
     ["customlist", ["\u3000\u3000", "\u2503", "\u2517", "\u2523\u2501", "\u2517\u2533\u27a4", "\u2523"]],
 ]
+# custom tuples with an EMPTY string in every single position, equal elements, and multi-character elements of any width
+# (all legal; checked by the exact-prefix oracle and against the model)
+def _with_empty(base, i):
+    b = list(base)
+    b[i] = ""
+    return b
+
+
+_B6 = ["a ", "b ", "c ", "d ", "e ", "f "]
+_B4 = ["a ", "b ", "c ", "d "]
+EDGE = ([["custom", _with_empty(_B6, i)] for i in range(6)] + [["custom", _with_empty(_B4, i)] for i in range(4)] + [
+    ["custom", ["  ", "  ", "- ", "- ", "", ""]],                    # both has-children connectors empty
+    ["custom", ["", "", "", "", "", ""]], ["custom", ["", "", "", ""]],
+    ["custom", ["x", "x", "x", "x", "x", "x"]],                      # all equal
+    ["custom", ["  ", "| ", "`-", "+-", "`-", "+-"]],                # 6-tuple equal to its 4-tuple
+    ["custom", ["<<<<", "|", "`--->", "+>", "`=+=>", "++"]],         # multi-character, all widths different
+    ["customlist", ["0", "0", "0", "1", "", "0"]],                   # strings that look falsy
+])
 MALFORMED = [
     ["custom", []], ["custom", ["a", "b", "c"]], ["custom", ["a", "b", "c", "d", "e"]],
     ["custom", ["a", "b", "c", "d", "e", "f", "g"]], ["name", "nope"], ["name", "List"],
@@ -262,21 +280,24 @@ class Prop:
     case_vo = "theories/Cases/CaseC16.vo"
     run_fn = "run16m"
     shard = 8
-    rule = ("every ordered forest shape with <= N nodes (quick N=4, thorough N=5) with every style of the table, the default, '', 'list', 4 custom "
-            "4-/6-tuples incl. astral-plane code points and 6 malformed styles; every (N+1)-node shape with a rotating fifth (quick) / third (thorough) of the styles; "
-            "plus seeded random deep/wide trees of 6..24 nodes (quick 24, thorough 180); every 5th case gives all nodes ONE data object "
-            "(siblings equal but not identical); 22 fixed + 24 (quick) / 110 (thorough) random MUTATION HISTORIES (remove, remove(keep_children), "
+    rule = ("every ordered forest shape with <= N nodes (quick N=4 - the 4-node shapes alternate between two halves of the styles -, thorough N=5) with every style of the table, the default, '', 'list', 4 custom "
+            "4-/6-tuples incl. astral-plane code points and 6 malformed styles; every (N+1)-node shape with a rotating sixth (quick) / third (thorough) of the styles; "
+            "plus seeded random deep/wide trees of 6..24 nodes (quick 18, thorough 180); every 5th case gives all nodes ONE data object "
+            "(siblings equal but not identical); 22 fixed + 16 (quick) / 110 (thorough) random MUTATION HISTORIES (remove, remove(keep_children), "
             "remove_children, move_to, clear + re-add, sort, filter, add) applied before formatting with compact styles, custom 6-tuples and "
-            "ragged tuples; 8 fixed + 12 (quick) / 60 (thorough) SESSIONS on one tree object with one Python object per style: format everything, "
+            "ragged tuples; 8 fixed + 8 (quick) / 60 (thorough) SESSIONS on one tree object with one Python object per style: format everything, "
             "restructure above the start nodes (move_to, remove(keep_children), ...) while the caller swaps two connectors of its list styles "
             "in place, format everything again AND consume the format_iter() generators created before the restructuring (they must show "
             "the tree as it is when consumed), caller's style objects compared with a snapshot after every phase; "
-            "4 custom tuples with UNEQUAL segment widths everywhere (exact-prefix oracle, no decoding); per (tree, style): Tree.format_iter "
+            "17 custom tuples with an EMPTY string in every single position / equal / multi-character elements on every shape <= 3 nodes and "
+            "two larger ones; 4 fixed + 4 (quick) / 30 (thorough) ABANDONED-GENERATOR cases (format_iter consumed for k lines for every k, "
+            "dropped or kept; repr callbacks raising at the k-th call; then this tree and an unrelated tree formatted completely and the "
+            "kept generators resumed); 4 custom tuples with UNEQUAL segment widths everywhere (exact-prefix oracle, no decoding); per (tree, style): Tree.format_iter "
             "for title in {default, False, True, text, ''}, Node.format_iter for EVERY node as start with add_self on/off, "
             "format(join=j) for the tree and every node; repr as format string, callable or the class default; plain and typed trees; "
             "data strings that themselves look like connectors.  distinct = distinct (shape, style set, repr mode, typed); "
             "non-trivial = a node at relative depth >= 2 or two siblings exist (so ancestor and last/non-last segments both occur)")
-    exhaustive_note = "all forest shapes <= 4 nodes x all styles (quick); <= 5 nodes x all styles, 6 nodes x a third of the styles (thorough)"
+    exhaustive_note = "all forest shapes <= 3 nodes x all styles, 4 nodes x alternating halves of the styles (quick); <= 5 nodes x all styles, 6 nodes x a third of the styles (thorough)"
     assumptions = [
         "is-last-sibling is positional in the model (no following sibling); PROVED equal to the identity tests of the relationship-query model (C10: q_is_last of the located context of every member of get_parent_list(), in that order; q_is_last / q_has_children of the node) for forests with unique node identities (theorem C16_flags_are_the_identity_tests_of_the_code); uniqueness of identities is C01",
         "the rendering of a node (repr string/callable) is an input of the model; the harness computes it independently of format()",
@@ -303,7 +324,7 @@ class Prop:
     )
 
     # ----- generation
-    def _desc(self, shape, styles, i, typed=False, ops=None, phases=None):
+    def _desc(self, shape, styles, i, typed=False, ops=None, phases=None, abandon=False):
         same = (i % 5 == 2)     # all nodes carry the same data object: siblings are == but not identical
         nodes = B.shape_to_nodes(shape, lambda k, d, s: ((i if same else k * 5 + i) % len(UNIV), ("k%d" % (k % 2)) if typed else None, f"id{k}"))
         n = B.nodes_size(nodes)
@@ -312,7 +333,8 @@ class Prop:
         starts = None if n <= 6 else sorted({0, n // 6, n // 3, n // 2, 2 * n // 3, 5 * n // 6, n - 1})
         return dict(typed=typed, univ=UNIV, nodes=nodes, name="T%d" % (i % 3), styles=styles,
                     repr=REPR_MODES[i % 3], title=TITLE_TEXT, join=JOINS[i % len(JOINS)], starts=starts,
-                    **({"ops": ops} if ops else {}), **({"phases": phases} if phases else {}))
+                    **({"ops": ops} if ops else {}), **({"phases": phases} if phases else {}),
+                    **({"abandon": True} if abandon else {}))
 
     def descs(self, tier, rng):
         yield from CORPUS
@@ -323,12 +345,15 @@ class Prop:
         for n in range(0, nfull + 1):
             for shape in H.forests(n):
                 # split the styles over two cases per shape to keep case terms small
-                yield self._desc(shape, everything[0::2], i, typed=(i % 7 == 3))
-                yield self._desc(shape, everything[1::2], i + 1, typed=(i % 7 == 5))
+                # (quick: the largest size alternates between the two halves from shape to shape)
+                if not (tier == "quick" and n == nfull and (i // 2) % 2 == 1):
+                    yield self._desc(shape, everything[0::2], i, typed=(i % 7 == 3))
+                if not (tier == "quick" and n == nfull and (i // 2) % 2 == 0):
+                    yield self._desc(shape, everything[1::2], i + 1, typed=(i % 7 == 5))
                 i += 2
         # one size further: every shape with a rotating third of the styles
         for j, shape in enumerate(H.forests(nfull + 1)):
-            step = 5 if tier == "quick" else 3
+            step = 6 if tier == "quick" else 3
             sub = [everything[(j + step * k) % len(everything)] for k in range(len(everything) // step + 1)]
             yield self._desc(shape, sub, i, typed=(i % 7 == 3))
             i += 1
@@ -339,27 +364,45 @@ class Prop:
         for j, (shape, ops) in enumerate(HIST_SEEDS):
             yield self._desc(shape, hist_styles, 3 * j, typed=(j % 5 == 4), ops=ops)
             i += 1
-        for j in range(24 if tier == "quick" else 110):
+        for j in range(16 if tier == "quick" else 110):
             shape = H.random_shape(rng, rng.randint(3, 10), deep=rng.choice([0.3, 0.6, 0.9]))
             ops = random_ops(rng, rng.randint(1, 5))
             sub = rng.sample(hist_styles[:8], 4) + rng.sample(hist_styles[8:], 1)
             yield self._desc(shape, sub, rng.randrange(1000), typed=rng.random() < 0.2, ops=ops)
+            i += 1
+        # custom tuples with empty / equal / multi-character elements in every position, on every shape with <= 3 nodes and
+        # two larger ones (all combinations of last / not last and with / without children occur)
+        for j, shape in enumerate([sh for n in range(1, 4) for sh in H.forests(n)] + [_L2, _S1]):
+            yield self._desc(shape, EDGE[j % 2::2] if tier == "quick" and j < 8 else EDGE, 3 * j + 2, typed=(j == 5))
+            i += 1
+        # ABANDONED generators: format_iter() consumed for k lines (every k) and dropped or kept, repr callbacks that raise at
+        # their k-th call; then the same tree AND an unrelated tree are formatted completely, the kept generators are resumed
+        aband = [(_L2, None, None), (_S1, None, [[["move_top", 1, 0]]]), (_L3, [["remove_keep", 1]], [[]]), ((((((),),),),), None, None)]
+        aband_styles = [["default"], ["name", "lines32c"], ["name", "ascii32"], CUSTOM[0], EDGE[10], ["name", "list"]]
+        for j, (shape, pre, phases) in enumerate(aband):
+            yield self._desc(shape, aband_styles[j % 2::2] if tier == "quick" else aband_styles, 3 * j, typed=(j == 2),
+                             ops=pre, phases=phases, abandon=True)
+            i += 1
+        for j in range(4 if tier == "quick" else 30):
+            shape = H.random_shape(rng, rng.randint(3, 8), deep=rng.choice([0.6, 0.9]))
+            phases = [random_ops(rng, rng.randint(1, 2), RESTRUCTURE)] if rng.random() < 0.5 else None
+            yield self._desc(shape, rng.sample(aband_styles, 2), rng.randrange(1000), phases=phases, abandon=True)
             i += 1
         # SESSIONS: format - restructure the same tree object (mostly above the start nodes) - format again, with the
         # generators of the previous phase consumed after the restructuring and one style object per style reused
         sess_styles = [["default"], ["name", "ascii22"], ["name", "lines32c"], ["name", "round43c"], CUSTOM[0], CUSTOM[4],
                        CUSTOM[3], RAGGED[3], ["name", "list"]]
         for j, (shape, pre, phases) in enumerate(SESSION_SEEDS):
-            sub = sess_styles if tier != "quick" else [sess_styles[k] for k in (0, 2 + j % 2, 4, 5, 6 + j % 2, 8)]
+            sub = sess_styles if tier != "quick" else [sess_styles[k] for k in (0, 2 + j % 2, 5, 6 + j % 2, 8 if j % 2 else 4)]
             yield self._desc(shape, sub, 3 * j + 1, typed=(j % 4 == 3), ops=pre, phases=phases)
             i += 1
-        for j in range(12 if tier == "quick" else 60):
+        for j in range(8 if tier == "quick" else 60):
             shape = H.random_shape(rng, rng.randint(4, 9), deep=rng.choice([0.6, 0.9]))
             phases = [random_ops(rng, rng.randint(1, 3), RESTRUCTURE) for _ in range(rng.choice([1, 1, 2]))]
             sub = [sess_styles[0]] + rng.sample(sess_styles[1:4], 1) + rng.sample(sess_styles[4:8], 2)
             yield self._desc(shape, sub, rng.randrange(1000), typed=rng.random() < 0.25, phases=phases)
             i += 1
-        nrand = 24 if tier == "quick" else 180
+        nrand = 18 if tier == "quick" else 180
         for _ in range(nrand):
             n = rng.randint(6, 24)
             shape = H.random_shape(rng, n, deep=rng.choice([0.3, 0.6, 0.9]))
@@ -368,6 +411,10 @@ class Prop:
             i += 1
 
     def shrink_candidates(self, desc):
+        if desc.get("abandon"):
+            # a defect of this family leaves hidden state behind in the library (process-wide): in the process that found it
+            # every later case fails too, so shrinking there is meaningless; the replay is the generated case itself
+            return
         ops = desc.get("ops") or []
         for k in range(len(ops)):
             yield dict(desc, ops=ops[:k] + ops[k + 1:])
@@ -410,7 +457,7 @@ class Prop:
         phases = desc.get("phases") or []
         cls = "TypedTree" if typed else "Tree"
 
-        coq_cases, all_obs, fail, late = [], [], None, None
+        coq_cases, all_obs, fail, late, other = [], [], None, None, None
         depth = max_sibs = n_nodes = 0
         for ph in range(len(phases) + 1):
             if ph > 0:
@@ -427,8 +474,33 @@ class Prop:
             else:
                 rend = {id(n): (f"{n.kind} \u2192 {n._data}" if typed else f"{n._data!r}") for n in nodes}
             snodes, jnodes = self.select(nodes, desc.get("starts"))
+            kept = self.abandon(tree, nodes, snodes, objs, rarg) if desc.get("abandon") else []
             obs = [self.observe(tree, snodes, jnodes, a, rarg, titles, join) for a in objs]
             variants = [("", obs)]
+            # generators that were partly consumed and kept while everything was formatted again continue where they stopped
+            for k, where, head, it in kept:
+                fresh = obs[k][0][0] if where == "tree" else obs[k][0][1] if where == "tree0" else obs[k][1][where][0]
+                rest = lines_obs(lambda: it)
+                if not fail and fresh[0] == 0 and (rest[0] != 0 or head + rest[1] != fresh[1]):
+                    fail = (f"phase {ph}: a format_iter() generator ({where}) of which {len(head)} lines were consumed before the tree was "
+                            f"formatted again continues with {rest!r}; the whole rendering is {fresh[1]!r} [style {cur[k]}]")
+            others = []
+            if desc.get("abandon"):
+                # ... and an unrelated tree is formatted as if nothing had happened
+                if other is None:
+                    other = H.Tree("other")
+                    B.add_nodes(other._root, B.shape_to_nodes(_L2, lambda k, d, s: ((k * 3 + 1) % len(desc["univ"]), None, f"o{k}")), U, False)
+                o_nodes = B.all_nodes(other._root)
+                o_rend = ({id(n): f"{n._data}" for n in o_nodes} if mode == "fmt" else
+                          {id(n): f"<{n._data}>#{len(n._children or [])}" for n in o_nodes} if mode == "call" else
+                          {id(n): f"{n._data!r}" for n in o_nodes})
+                o_sn, o_jn = self.select(o_nodes, None)
+                o_obs = [self.observe(other, o_sn, o_jn, a, rarg, titles, join) for a in objs[:2]]
+                for st, o in zip(cur, o_obs):
+                    f = None if fail else self.oracle(other, o_sn, o_jn, o_rend, st, o, titles, join, False)
+                    if f:
+                        fail = f"phase {ph}: an unrelated tree formatted after abandoned format_iter() generators of this tree: {f} [style {st}]"
+                others.append((other, o_nodes, o_rend, o_sn, o_jn, o_obs))
             if late is not None:
                 obs_late = []
                 for k, o in enumerate(obs):
@@ -480,15 +552,77 @@ class Prop:
                     f"{H.coq_list(str(H.nid(n)) for n in snodes)} {H.coq_list(str(H.nid(n)) for n in jnodes)} {H.coq_bool(full)})")
                 all_obs.append([[tr[:2] + [hl(x) for x in tr[2:]], [[hl(a), hl(b)] for a, b in nd], tj,
                                  [[ht(x), ht(y)] for x, y in nj], [hl(x) for x in sr]] for tr, nd, tj, nj, sr in ob])
+            for o_tree, o_nodes, o_rend, o_sn, o_jn, o_obs in others:
+                o_full = len(o_nodes) <= 3
+                o_rends = H.coq_list(f"({H.nid(n)}, {H.coq_text(o_rend[id(n)])})" for n in o_nodes)
+                coq_cases.append(
+                    f"(mk16 {H.coq_forest(o_tree._root, U)} {o_rends} {H.coq_text('Tree')} {H.coq_text('other')} "
+                    f"{H.coq_list(coq_style(s) for s in cur[:len(o_obs)])} {H.coq_text(ttext)} {H.coq_text(join)} "
+                    f"{H.coq_list(str(H.nid(n)) for n in o_sn)} {H.coq_list(str(H.nid(n)) for n in o_jn)} {H.coq_bool(o_full)})")
+                all_obs.append([[tr[:2] + [hlines(x) for x in tr[2:]], [[hlines(a), hlines(b)] for a, b in nd], tj,
+                                 [[htext(x), htext(y)] for x, y in nj], [hlines(x) for x in sr]] for tr, nd, tj, nj, sr in o_obs])
             depth = max(depth, ptr_depth(tree._root))
             max_sibs = max([max_sibs] + [len(p._children or []) for p in [tree._root] + nodes])
             n_nodes = max(n_nodes, len(nodes))
         return Case(desc=desc, coq_input=H.coq_list(coq_cases), impl_obs=all_obs, oracle_fail=fail,
                     nontrivial=(depth >= 2 or max_sibs >= 2),
-                    key=H.digest([B_shape(desc["nodes"]), desc.get("ops"), phases, desc["styles"], desc["repr"], typed]),
+                    key=H.digest([B_shape(desc["nodes"]), desc.get("ops"), phases, desc.get("abandon"), desc["styles"], desc["repr"], typed]),
                     stats=dict(nodes=n_nodes, depth=depth, max_sibs=max_sibs, styles=len(desc["styles"]), repr=mode, typed=typed,
                                ops=len(desc.get("ops") or []) + sum(len(x) for x in phases), ops_applied=n_applied,
                                phases=len(phases) + 1))
+
+    @staticmethod
+    def abandon(tree, nodes, snodes, objs, rarg):
+        """Start format_iter() generators and leave them unfinished in every possible place: after k lines for every k
+        (even k: dropped; odd k: kept and returned as (style index, where, consumed lines, generator)), and through a repr
+        callback that raises at its k-th call (caught here).  On the unchanged code none of this has any effect on later calls."""
+        class Boom(Exception):
+            pass
+
+        def base_render(n):
+            if callable(rarg):
+                return rarg(n)
+            return (rarg if rarg is not None else n.DEFAULT_RENDER_REPR).format(node=n)
+
+        kept = []
+        inner = [i for i, n in enumerate(snodes) if n._children][:3]
+        for k_style, a in enumerate(objs):
+            targets = [("tree", lambda: tree.format_iter(repr=rarg, style=a)),
+                       ("tree0", lambda: tree.format_iter(repr=rarg, style=a, title=False))]
+            targets += [(i, (lambda n: (lambda: n.format_iter(repr=rarg, style=a)))(snodes[i])) for i in inner]
+            for where, mk in targets:
+                for k in range(len(nodes) + 2):
+                    head = []
+                    try:
+                        it = mk()
+                        for _ in range(k):
+                            head.append(next(it))
+                    except StopIteration:
+                        continue
+                    except Exception:  # noqa: BLE001  (invalid style: nothing to abandon)
+                        break
+                    if k % 2 == 1:
+                        kept.append((k_style, where, head, it))
+                    else:
+                        del it
+            for k in range(1, len(nodes) + 1):
+                calls = [0]
+
+                def bad(n):
+                    calls[0] += 1
+                    if calls[0] == k:
+                        raise Boom()
+                    return base_render(n)
+
+                for fn in (lambda: tree.format(repr=bad, style=a), lambda: list(tree.format_iter(repr=bad, style=a, title=False))):
+                    calls[0] = 0
+                    try:
+                        fn()
+                    except Boom:
+                        pass
+                    except Exception:  # noqa: BLE001
+                        break
+        return kept
 
     @staticmethod
     def select(nodes, starts):
